@@ -62,7 +62,15 @@ type vclock struct {
 	hookArmed bool
 	hookFired bool
 	hookD     int64
+	hookOn    int    // which calls trigger it: hkNew | hkStop | hkReset
+	hookFn    func() // run inside the call (after the jump), with no clock lock held
 }
+
+const (
+	hkNew   = 1
+	hkStop  = 2
+	hkReset = 4
+)
 
 func newVClock(legacy bool) *vclock {
 	return &vclock{base: time.Unix(1_700_000_000, 0), legacy: legacy}
@@ -102,18 +110,27 @@ func (c *vclock) maybeGate() {
 	}
 }
 
-func (c *vclock) maybeHook() {
+func (c *vclock) maybeHook(call int) {
 	// called with c.mu held
-	if c.hookArmed {
+	if c.hookArmed && c.hookOn&call != 0 {
 		c.hookArmed = false
 		c.hookFired = true
 		c.advanceLocked(c.hookD)
+		if fn := c.hookFn; fn != nil {
+			c.mu.Unlock()
+			fn()
+			c.mu.Lock()
+		}
 	}
 }
 
-func (c *vclock) armHook(d int64) {
+func (c *vclock) armHook(d int64) { c.armHookFn(d, hkNew|hkStop, nil) }
+
+// armHookFn: the next call of one of the kinds in on first moves the clock by d and then runs fn
+// (on the calling goroutine = the limiter's run loop, inside the limiter's critical section).
+func (c *vclock) armHookFn(d int64, on int, fn func()) {
 	c.mu.Lock()
-	c.hookArmed, c.hookFired, c.hookD = true, false, d
+	c.hookArmed, c.hookFired, c.hookD, c.hookOn, c.hookFn = true, false, d, on, fn
 	c.mu.Unlock()
 }
 
@@ -153,7 +170,7 @@ func (c *vclock) NewTimer(d time.Duration) clock.Timer {
 	c.mu.Lock()
 	defer c.mu.Unlock()
 	c.maybeGate()
-	c.maybeHook()
+	c.maybeHook(hkNew)
 	t := &vtimer{c: c, ch: make(chan time.Time, 1), active: true, deadline: c.now + int64(d)}
 	c.timers = append(c.timers, t)
 	c.log = append(c.log, logEntry{lkNew, int64(d)})
@@ -178,7 +195,7 @@ func (t *vtimer) Stop() bool {
 	c.mu.Lock()
 	defer c.mu.Unlock()
 	c.maybeGate()
-	c.maybeHook()
+	c.maybeHook(hkStop)
 	t.falseStp = false
 	switch {
 	case t.active:
@@ -212,6 +229,7 @@ func (t *vtimer) Reset(d time.Duration) bool {
 	c := t.c
 	c.mu.Lock()
 	defer c.mu.Unlock()
+	c.maybeHook(hkReset)
 	was := t.active
 	select {
 	case <-t.ch:
